@@ -693,13 +693,13 @@ const Expr *lastCond(const CFGBlock *B) {
   const Expr *C = dyn_cast_or_null<Expr>(B->getTerminatorCondition(false));
   if (!C)
     return nullptr;
-  // When the terminator is a statement (if/while/for/do/?:/switch) whose
-  // condition is a logical operator, the value that decides the branch in
-  // *this* block is the right-most operand.
-  bool TermIsLogical = false;
-  if (const auto *TB = dyn_cast_or_null<BinaryOperator>(T))
-    TermIsLogical = TB->isLogicalOp();
-  if (!TermIsLogical) {
+  // The value that decides the branch in *this* block is the operand that
+  // was evaluated last: for `if (a && b)` the block ending in the if has
+  // decided b; for a block whose terminator is itself a logical operator
+  // `(a || b) && c` the terminator condition is the LHS `(a || b)`, of which
+  // b was evaluated last in this block.
+  (void)T;
+  {
     const Expr *X = C->IgnoreParens();
     while (const auto *BO = dyn_cast<BinaryOperator>(X)) {
       if (!BO->isLogicalOp())
